@@ -141,6 +141,7 @@ impl<'a> Tr<'a> {
                     ty: Ty::Tuple(vs.into_iter().map(|v| v.ty).collect()),
                 })
             }
+            Expr::Array(a) if a.elems.is_empty() => Ok(Val { s: "[]".into(), ty: Ty::Slice(Box::new(Ty::Infer)) }),
             Expr::Array(a) => {
                 if a.elems.len() < 2 {
                     return Err(unsupported(e, "array literal with fewer than 2 elements"));
@@ -162,7 +163,21 @@ impl<'a> Tr<'a> {
                 // `[e; N]` with a literal N and a literal e: the N-tuple
                 let n = match &*r.len {
                     Expr::Lit(ExprLit { lit: Lit::Int(i), .. }) => i.base10_parse::<usize>().map_err(|x| unsupported(e, &x.to_string()))?,
-                    _ => return Err(unsupported(e, "array repeat expression whose length is not a literal")),
+                    len => {
+                        // a computed length (a const generic): the array is a list
+                        if !matches!(strip_parens(&r.expr), Expr::Lit(_)) {
+                            return Err(unsupported(e, "array repeat expression of a non-literal element"));
+                        }
+                        let us = Ty::int(IntTy::Usize);
+                        let lv = self.pure(len, env, Some(&us))?;
+                        join(&lv.ty, &us).map_err(|m| unsupported(e, &m))?;
+                        let eh = match hint {
+                            Some(Ty::Slice(t)) => Some((**t).clone()),
+                            _ => None,
+                        };
+                        let v = self.pure(&r.expr, env, eh.as_ref())?;
+                        return Ok(Val { s: format!("(List.repeat {} (Z.to_nat {}))", v.s, lv.s), ty: Ty::Slice(Box::new(v.ty)) });
+                    }
                 };
                 if !(2..=8).contains(&n) || !matches!(strip_parens(&r.expr), Expr::Lit(_)) {
                     return Err(unsupported(e, "array repeat expression (only `[literal; 2..8]`)"));
@@ -188,8 +203,37 @@ impl<'a> Tr<'a> {
                     t if t.is_int() => Ok(Val { s: format!("(Casts.slice_idx {} {})", b.s, i.s), ty: elem }),
                     Ty::Option(_) => Ok(Val { s: format!("(Casts.slice_nth None {} {})", b.s, i.s), ty: elem }),
                     Ty::Bool => Ok(Val { s: format!("(Casts.slice_nth false {} {})", b.s, i.s), ty: elem }),
-                    _ => Err(unsupported(e, "indexing a slice whose elements are not integers, bool or Option")),
+                    t => match self.t.default_of(t) {
+                        // Rust panics out of range; the default inhabitant here
+                        Some(d) => Ok(Val { s: format!("(Casts.slice_nth {} {} {})", d, b.s, i.s), ty: elem.clone() }),
+                        None => Err(unsupported(e, &format!("indexing a slice of {} (no default inhabitant for the out-of-range case)", t.show()))),
+                    },
                 }
+            }
+            Expr::Index(ix) if matches!(strip_parens(&ix.index), Expr::Range(_)) => {
+                // `array[a..b]` with literal bounds: the sub-array
+                let b = self.pure(&ix.expr, env, None)?;
+                let ts = match &b.ty {
+                    Ty::Tuple(ts) => ts.clone(),
+                    t => return Err(unsupported(e, &format!("range index on a value of type {} (only arrays with literal bounds)", t.show()))),
+                };
+                let r = match strip_parens(&ix.index) {
+                    Expr::Range(r) if matches!(r.limits, RangeLimits::HalfOpen(_)) => r,
+                    _ => return Err(unsupported(e, "inclusive range index")),
+                };
+                let lit_of = |x: &Option<Box<Expr>>, d: usize| -> R<usize> {
+                    match x.as_deref() {
+                        None => Ok(d),
+                        Some(Expr::Lit(ExprLit { lit: Lit::Int(i), .. })) => i.base10_parse::<usize>().map_err(|m| unsupported(e, &m.to_string())),
+                        Some(_) => Err(unsupported(e, "range index whose bounds are not literals")),
+                    }
+                };
+                let (lo, hi) = (lit_of(&r.start, 0)?, lit_of(&r.end, ts.len())?);
+                if lo > hi || hi > ts.len() || hi - lo < 2 {
+                    return Err(unsupported(e, "range index outside the array / of fewer than 2 elements"));
+                }
+                let names: Vec<String> = (0..ts.len()).map(|i| format!("a{}_", i)).collect();
+                Ok(Val { s: format!("(let '({}) := {} in ({}))", names.join(", "), b.s, names[lo..hi].join(", ")), ty: Ty::Tuple(ts[lo..hi].to_vec()) })
             }
             Expr::Index(ix) => {
                 let b = self.pure(&ix.expr, env, None)?;
@@ -475,12 +519,23 @@ impl<'a> Tr<'a> {
         if let Some(q) = &p.qself {
             // `<Self as Trait>::ITEM` is `Self::ITEM` (the trait only disambiguates)
             let is_self = matches!(&*q.ty, Type::Path(tp) if tp.qself.is_none() && tp.path.is_ident("Self"));
-            if !is_self || q.position == 0 || q.position >= segs.len() {
-                return Err(unsupported(at, "qualified path `<T as Trait>::..` (only `<Self as Trait>::ITEM`)"));
+            // `<Type>::ITEM` (no trait): `Type::ITEM`
+            let plain: Option<String> = match crate::strip_group(&q.ty) {
+                Type::Path(tp) if tp.qself.is_none() && q.position == 0 && tp.path.segments.len() == 1 && matches!(tp.path.segments[0].arguments, PathArguments::None) => Some(tp.path.segments[0].ident.to_string()),
+                _ => None,
+            };
+            if let Some(tn) = plain {
+                let mut s2 = vec![tn];
+                s2.extend(segs.iter().cloned());
+                segs = s2;
+            } else {
+                if !is_self || q.position == 0 || q.position >= segs.len() {
+                    return Err(unsupported(at, "qualified path `<T as Trait>::..` (only `<Self as Trait>::ITEM` and `<Type>::ITEM`)"));
+                }
+                let mut s2 = vec!["Self".to_string()];
+                s2.extend(segs[q.position..].iter().cloned());
+                segs = s2;
             }
-            let mut s2 = vec!["Self".to_string()];
-            s2.extend(segs[q.position..].iter().cloned());
-            segs = s2;
         }
         if segs.len() == 3 && segs[0] == "Self" {
             // `Self::Assoc::MAX` where `type Assoc = <integer type>;`
@@ -521,8 +576,12 @@ impl<'a> Tr<'a> {
             if local_const && !self.t.consts.iter().any(|c| c.key == *n && c.file == self.cur_file) {
                 return Err(unsupported(at, &format!("`{}`: this file defines its own constant of that name, which is not configured", n)));
             }
-            if let Some(c) = self.t.consts.iter().find(|c| c.key == *n && (!local_const || c.file == self.cur_file)) {
-                let c = c.clone();
+            let cands: Vec<&ConstInfo> = self.t.consts.iter().filter(|c| c.key == *n && (!local_const || c.file == self.cur_file)).collect();
+            if cands.len() > 1 {
+                return Err(unsupported(at, &format!("`{}`: several configured constants of that name (of different files), none of them defined in this file", n)));
+            }
+            if let Some(c) = cands.first() {
+                let c = (*c).clone();
                 let ma = self.mvar_args(&c.mvars, env, at)?;
                 return Ok(Val { s: app(&c.coq, &ma), ty: c.ty.clone() });
             }
@@ -663,6 +722,10 @@ impl<'a> Tr<'a> {
             let mut env2 = env.clone();
             let ps = self.bind_pat(&p, &v.ty, &mut env2)?;
             return Ok(Val { s: format!("(match {} with | {} => true | _ => false end)", v.s, ps), ty: Ty::Bool });
+        }
+        if name == "assert" || name == "debug_assert" {
+            // `assert!(..)` as an expression of type (): it only panics
+            return Ok(unit());
         }
         Err(unsupported(at, &format!("macro `{}!`", name)))
     }
